@@ -1,10 +1,12 @@
 package main
 
 import (
+	"fmt"
 	"go/ast"
 	"go/token"
 	"strconv"
 	"strings"
+	"unicode"
 )
 
 // Imports group: constants of /repo/imports/build.go used by the C18/C19 models.
@@ -50,6 +52,18 @@ func init() {
 		} else {
 			g.fail("imports.MatchFile: expected the string literals \"*\", \".\", \"_\", \"_\", \"test\"; found %q", mf)
 		}
+
+		// matchTag accepts unicode.IsLetter / unicode.IsDigit runes: the model knows the ASCII ones by
+		// range and the others through this table, taken from the toolchain's unicode tables (the ones
+		// /repo is compiled with) for U+0080..U+024F (Latin-1 Supplement, Latin Extended-A/B).
+		var extra []string
+		for r := rune(0x80); r <= 0x24f; r++ {
+			if unicode.IsLetter(r) || unicode.IsDigit(r) {
+				extra = append(extra, string(r))
+			}
+		}
+		g.emitBytesList("extra_tag_runes", "UTF-8 encodings of the letters and digits of U+0080..U+024F (unicode.IsLetter || unicode.IsDigit)", extra)
+		fmt.Fprintf(&g.buf, "(* the first code point above the table *)\nDefinition extra_tag_limit : N := %d%%N.\n\n", 0x250)
 
 		// scan.go: ScanDir's name filter and scanFiles' special import / suffix
 		sd := g.funcLits(dir, "ScanDir")
